@@ -113,10 +113,52 @@ Print Assumptions L_concluded_final.
 
 (* ---------------- the protocol ---------------- *)
 
-(* In every run of the LTS: when both participants' own Conclude went through, the ledger channel is
-   concluded on the state both hold as their newest agreed state, and every sub-channel locked in it is
-   concluded on the newest state both hold of it: "the last state both signed" is one tree, and it is what
-   the ledger pays out. *)
+(* Vocabulary (Model/Settle.v, Proofs/SettleP.v):
+     srun (sinit root assets agree accts acc0) es = Some st   es is a run of the LTS from the state in which
+                      nothing has happened: ledger accounts acc0, no channel yet; the events are the honest
+                      steps of the two participants, ledger calls of anybody, and clock ticks
+     static_ok        two distinct ledger accounts, two participants, the agreement has one row per asset
+     newest_tree st i the newest agreed state of the ledger channel at participant i and, for every
+                      sub-allocation locked in it, the newest agreed state of that sub-channel
+     tree_outcome tr  the recursive outcome of that tree (balances plus sub-channel balances through the index
+                      maps); without locked sub-channels it is the balance matrix of the state
+     pt_wd            the participant's own Settle went through: its Conclude and its Withdraw succeeded
+     funded st        both participants have deposited
+     acct st i, dcol st i x, ocol st out i x   ledger account of participant i; what the funding agreement /
+                      the outcome out assigns to participant i of asset x *)
+
+(* C03_honest_settlement. For EVERY run of the LTS that ends with the channel funded and both participants
+   settled:
+   - both participants hold the same newest tree (the last state both signed, with its sub-channel states),
+   - each participant's ledger balance is what it was before opening, minus exactly its column of the
+     funding agreement, plus exactly its column of the outcome of that tree,
+   - per asset the ledger holds what it held before opening,
+   - nothing remains held for the channel. *)
+Theorem C03_honest_settlement : forall rootp assets agree accts acc0 es st,
+  static_ok (sinit rootp assets agree accts acc0) ->
+  srun (sinit rootp assets agree accts acc0) es = Some st ->
+  funded st = true -> pt_wd (s_p0 st) = true -> pt_wd (s_p1 st) = true ->
+  exists tr0 tr1 out,
+    newest_tree st 0 = Some tr0 /\ newest_tree st 1 = Some tr1
+    /\ fst tr0 = fst tr1 /\ map snd (snd tr0) = map snd (snd tr1)
+    /\ tree_outcome tr0 = ROk out
+    /\ (forall i x, (i < 2)%nat ->
+          acc_get (l_acc (s_L st)) (acct st i, x) = (acc_get acc0 (acct st i, x) - dcol st i x + ocol st out i x)%Z)
+    /\ (forall x, ledger_total x (s_L st) = acc_total x acc0)
+    /\ exists f, bfind (l_funds (s_L st)) (rootid st) = Some f /\ f_settled f = true
+         /\ forall i, (i < 2)%nat -> col (f_hold f) i = zeros (f_hold f).
+Proof. exact honest_settlement. Qed.
+Print Assumptions C03_honest_settlement.
+
+(* without locked sub-channels the outcome is the balance matrix of the last agreed state *)
+Theorem C03_outcome_is_balance : forall tr out,
+  tree_outcome tr = ROk out -> al_locked (st_alloc (fst tr)) = [] -> out = al_bals (st_alloc (fst tr)).
+Proof. exact tree_outcome_nolock. Qed.
+Print Assumptions C03_outcome_is_balance.
+
+(* When both participants' own Conclude went through, the ledger channel is concluded on the state both hold
+   as their newest agreed state, and every sub-channel locked in it is concluded on the newest state both hold
+   of it (also before anybody withdrew, and whether or not the channel was funded). *)
 Theorem C03_last_agreed_tree : forall rootp assets agree accts acc es st,
   srun (sinit rootp assets agree accts acc) es = Some st ->
   pt_concl (s_p0 st) = true -> pt_concl (s_p1 st) = true ->
@@ -129,3 +171,38 @@ Theorem C03_last_agreed_tree : forall rootp assets agree accts acc es st,
            /\ bfind (pt_nodes (s_p1 st)) (sa_id l) = Some n1 /\ newest n1 = Some (d_state dl).
 Proof. exact both_settled_same_tree. Qed.
 Print Assumptions C03_last_agreed_tree.
+
+(* ---------------- non-vacuity: a run that satisfies the hypotheses ---------------- *)
+Definition xid : bytes := [Byte.x01].
+Definition sid : bytes := [Byte.x02].
+Definition exroot : lparams := mkLP xid [1; 2] 3 None true.
+Definition exsub : lparams := mkLP sid [1; 2] 2 None false.
+Definition exst (id : bytes) (v : N) (b : list (list Z)) (lk : list suballoc) (fin : bool) : state :=
+  mkState id v (mkAlloc [0] [5] b lk) None [] fin.
+Definition v0 := exst xid 0 [[10; 10]%Z] [] false.
+Definition v1 := exst xid 1 [[4; 16]%Z] [] false.
+Definition u0 := exst sid 0 [[1; 2]%Z] [] false.
+Definition u1 := exst sid 1 [[3; 0]%Z] [] false.
+Definition v2 := exst xid 2 [[3; 14]%Z] [mkSA sid [3%Z] []] false.
+Definition exacc : accounts := [((1, 5), 50%Z); ((2, 5), 50%Z)].
+Definition exinit := sinit exroot [5] [[12; 8]%Z] [1; 2] exacc.     (* funding agreement 12/8, initial balances 10/10 *)
+(* both open, fund, make a payment, open a sub-channel and pay in it; 0 registers the tree, the clock runs,
+   both conclude and withdraw *)
+Definition exrun : list sevent :=
+  [SOpen 0 exroot v0; SOpen 1 exroot v0; SFund 0; SFund 1; SEnable 1 v1; SEnable 0 v1;
+   SOpen 0 exsub u0; SOpen 1 exsub u0; SEnable 1 v2; SEnable 0 v2; SEnable 0 u1; SEnable 1 u1;
+   SFreeze 0 xid; SFreeze 0 sid; SRegister 0; SFreeze 1 xid; SFreeze 1 sid; STick; STick; STick;
+   SConclude 0; SWithdraw 0; SConclude 1; SWithdraw 1].
+Example C03_nonvacuous :
+  static_ok exinit /\
+  exists st, srun exinit exrun = Some st /\ honest_run exrun = true /\ funded st = true
+    /\ pt_wd (s_p0 st) = true /\ pt_wd (s_p1 st) = true
+    /\ newest_tree st 0 = Some (v2, [(exsub, u1)])
+    /\ tree_outcome (v2, [(exsub, u1)]) = ROk [[6; 14]%Z]
+    /\ acc_get (l_acc (s_L st)) (1, 5) = 44%Z        (* 50 - 12 + (3 + 3) *)
+    /\ acc_get (l_acc (s_L st)) (2, 5) = 56%Z.       (* 50 - 8 + (14 + 0) *)
+Proof.
+  split.
+  - constructor; cbn; try reflexivity; try discriminate. repeat constructor.
+  - eexists. split; [vm_compute; reflexivity|]. vm_compute. repeat split; reflexivity.
+Qed.
